@@ -40,6 +40,21 @@ CASE = st.tuples(NAME, NAME, st.sampled_from(["/", "/p", "/p/q"]), st.sampled_fr
 META = set('";= ->\\%*?[:~#\t\x7f\x01\x85  \'') | set("0123456789")
 
 
+def glob_decoys(name):
+    """Sibling names that a pattern reading of `name` (fnmatch/glob) would match although they are different names."""
+    import re
+    out = set()
+    d = re.sub(r"\[!?([^\]])[^\]]*\]", lambda m: m.group(1) if not m.group(0).startswith("[!") else "q", name)
+    if d != name:
+        out.add(d)
+    if "*" in name:
+        out.add(name.replace("*", "zz"))
+        out.add(name.replace("*", ""))
+    if "?" in name:
+        out.add(name.replace("?", "q"))
+    return sorted(x for x in out if x and x != name)
+
+
 def trigger(name):
     t = []
     if '"' in name:
@@ -70,6 +85,15 @@ async def _run(loop, case, tmp, out):
         if parent != "/":
             await c.make_directory(parent)
         await c.change_directory(parent)
+        # decoy siblings: names a careless glob / pattern interpretation of N would also match
+        decoys = []
+        for cand in glob_decoys(name):
+            if cand not in (name, name2, ".", "..") and "/" not in cand and cand.strip() == cand and cand:
+                await c.make_directory(P(cand))
+                async with c.upload_stream(P(cand) / "decoy-file") as s_:
+                    await s_.write(b"decoy")
+                decoys.append(cand)
+        out.append("decoys=%d" % len(decoys))
         initial = tree()
 
         async def step(label, coro, check):
@@ -112,7 +136,8 @@ async def _run(loop, case, tmp, out):
 
             await step(f"retr_{kind}", down(), lambda r: r == b"data-" + kind.encode())
             await step(f"list_{kind}", c.list(),
-                       lambda r: [str(p) for p, i in r if i["type"] == kind].count(name) == 1 and len(r) == 1)
+                       lambda r: [str(p) for p, i in r if i["type"] == kind].count(name) == 1 and len(r) == 1 + len(decoys)
+                       and sorted(str(p) for p, i in r) == sorted([name] + decoys))
             await step(f"stat_{kind}", c.stat(P(name)), lambda r: r["type"] == kind)
             await step(f"exists_{kind}", c.exists(P(name)), lambda r: r is True)
             if name2 != name:
